@@ -448,7 +448,7 @@ func FromYAMLNode(n *yaml.Node) (*Node, error) {
 }
 
 func fromYAMLNode(n *yaml.Node, depth int) (*Node, error) {
-	if depth > 200 {
+	if depth > 5000 {
 		return nil, fmt.Errorf("yaml too deep / cyclic")
 	}
 	switch n.Kind {
